@@ -114,7 +114,7 @@ def call_cube(cube, case, rnd, args_out=None):
     fa = case.fact_arg(rnd) if case.fact is not None else None
     wa = case.weights_arg(rnd)
     if args_out is not None:
-        args_out.extend([fa, wa])
+        args_out.extend([fa, wa, digest([fa, wa])])
     if f == "count":
         if case.N is not None:
             kw["N"] = case.N
